@@ -5,7 +5,9 @@ import (
 	"sort"
 	"strings"
 
+	"cosmossdk.io/math"
 	cryptotypes "github.com/cosmos/cosmos-sdk/crypto/types"
+	sdk "github.com/cosmos/cosmos-sdk/types"
 
 	opchildtypes "github.com/initia-labs/OPinit/x/opchild/types"
 
@@ -183,6 +185,23 @@ func (c *c14) scenario(base *valWorld, cls planClass, maxVals uint32, execs []st
 	}
 	p1, _ := w.e.L2.K.GetParams(w.e.L2.Ctx)
 	run.Check("C14.no_effect_before_height", strings.Join(p1.BridgeExecutors, ",") == execBefore, "c14.effect_before_height", w.path, "executors changed before the plan height")
+	// who is an executor is decided by what the chain accepts, not only by what the params query shows: an
+	// executor-gated message (a deposit finalization) is offered by every old and every planned executor
+	candidates := append(append([]string(nil), paramsBefore.BridgeExecutors...), execs...)
+	candidates = append(candidates, sim.NewAccount("c14-stranger").String())
+	authProbe := func(when string, allowed []string, clause, sg string) {
+		for _, x := range candidates {
+			ok := false
+			for _, a := range allowed {
+				ok = ok || a == x
+			}
+			pb := w.e.Branch()
+			res := pb.L2.Deliver(pb.DepositMsg(sim.Account{Addr: sdk.MustAccAddressFromBech32(x)}, pb.NextL1Seq(), "l1from", w.e.Users[1].String(), "uinit", math.NewInt(5), nil))
+			run.Evaluations++
+			run.Check(clause, (res.Class == sim.OK) == ok, sg, append(append([]string(nil), w.path...), fmt.Sprintf("%s: deposit finalization offered by %s -> %s %s", when, x, res.Class, res.ErrString())), "%s: deposit finalization by %s accepted=%v, the executor list in force says %v", when, x, res.Class == sim.OK, ok)
+		}
+	}
+	authProbe("before the plan height", paramsBefore.BridgeExecutors, "C14.no_effect_before_height", "c14.authorised_before_height")
 	planCons := planKey.ConsAddrHex()
 	_, inEngine := w.e.L2.EngineSet()[planCons]
 	wasBonded := base.e.L2.EngineSet()[planCons] > 0
@@ -230,6 +249,7 @@ func (c *c14) scenario(base *valWorld, cls planClass, maxVals uint32, execs []st
 	sort.Strings(gotE)
 	sort.Strings(wantE)
 	run.Check("C14.executors_replaced", strings.Join(gotE, ",") == strings.Join(wantE, ","), sig("executors"), w.path, "after the plan height executors are %v, plan lists %v", gotE, wantE)
+	authProbe("after the plan height", execs, "C14.executors_replaced", sig("executors_authorised"))
 	run.Distinct(fmt.Sprintf("plan/%s/%s/max%d/execs%d/mid=%s/vals%d", cls, structural, maxVals, len(execs), midBlockOp, len(svals)))
 	// full C13-style comparison too (index bijection, last powers)
 	w.compareSets("after plan height")
